@@ -715,6 +715,8 @@ MODELLED = [
     ('runtime:Runtime.vector_add#1', 'rule_in_prod'), ('runtime:Runtime.vector_sub#1', 'rule_in_prod'),
     # shift of an array by an array of public amounts: ALL amounts >= f (sound_np_lshift)
     ('runtime:Runtime.np_left_shift#1', 'rule_np_lshift'),
+    # secure floats: the significand (a fixed-point number in [0.5, 1]) is constructed with integral=False
+    ('sectypes:SecureFloat.__init__#1', '(Const false)'),
 ]
 
 
